@@ -1,6 +1,10 @@
 import Hls.Proto
 import Hls.MvGen.Model
-/-! Model driver for the `mvgen` correspondence stream (C16). Core Lean only. -/
+/-! Model driver for the `mvgen` correspondence stream (C16). Core Lean only.
+
+`bandwidth()` is run as `bandwidthCode` / `generateCode`, i.e. with the two guards of the F13 repair present
+or absent as the REGENERATED facts say (`c16_no_panic`: with both present these are the total `bandwidth` /
+`generate`). -/
 open Hls.Proto Hls.MvGen
 
 def dash (s : String) : String := if s = "" then "-" else s
@@ -152,14 +156,17 @@ def step (st : St) (line : String) : St × List String :=
     | true, some seg, some q =>
       if !hasContent seg then (st, ["mv blocked"])
       else
-        match generate st.variant st.streams st.tracks (undash q) (entriesToSegs seg.entries) with
+        -- `generateCode`: `bandwidth()` with the guards the extractor found in the source
+        -- (`Hls.Gen.MvGen.bandwidthSkipsZeroDuration` / `bandwidthGuardsZeroTotal`): a tree without
+        -- the F13 repair is modelled as such (`mv panic:div0`), the correspondence stays exact.
+        match generateCode st.variant st.streams st.tracks (undash q) (entriesToSegs seg.entries) with
         | .error _ => (st, ["mv panic:div0"])
         | .ok m => (st, [fmtMv m])
     | _, _, _ => (st, ["bad-op"])
   | ["bw", segs] =>
     match parseSegs segs with
     | some l =>
-      match bandwidth l with
+      match bandwidthCode l with
       | .ok (mx, avg) => (st, [s!"bw {mx} {avg}"])
       | .error _ => (st, ["panic:div0"])
     | none => (st, ["bad-op"])
